@@ -1,6 +1,7 @@
 (* C33 — property theorems (statements only; proofs in C33/Proofs.v) *)
 From Coq Require Import ZArith QArith List Bool.
-From PPV Require Import Base.QN C33.Model C33.Proofs.
+From PPV Require Import Base.QN C33.Model C33.Proofs C33.Area4130.
+From PPV Require C32.Model.
 Import ListNotations.
 Open Scope Q_scope.
 
@@ -46,6 +47,51 @@ Theorem C33_area_result_in_flex : forall ar q_prio rt p q vm p' q',
   p' = p /\ exists lo hi, area_flex ar p vm = Some (lo, hi) /\ lo <= q' /\ q' <= hi.
 Proof. exact area_result_in_flex. Qed.
 Print Assumptions C33_area_result_in_flex.
+
+(* VDE AR-N-4130 (PQVArea4130V1-V3) inside the model: the two QV limits are numpy.interp over their tables, i.e. piecewise linear:
+   they return the tabulated q at every tabulated voltage, stay between the neighbouring tabulated values on every segment, are
+   constant beyond the ends, and never leave the range of the table *)
+Theorem C33_qv4130_limit_piecewise_linear : forall l,
+  C32.Model.sorted l ->
+  (forall p, In p l -> interp1 (fst p) l == snd p) /\
+  (forall p q x, C32.Model.consec p q l -> fst p <= x -> x <= fst q ->
+     (snd p <= interp1 x l /\ interp1 x l <= snd q) \/ (snd q <= interp1 x l /\ interp1 x l <= snd p)) /\
+  (forall a t x, l = a :: t -> x <= fst a -> interp1 x l = snd a) /\
+  (forall a t x, l = a :: t -> (forall q, In q l -> fst q <= x) -> interp1 x l == snd (last t a)).
+Proof.
+  intros l Hs. split; [intros p Hp; apply interp1_through; assumption|].
+  split; [intros p q x Hc X1 X2; apply interp1_between; assumption|].
+  split; [intros a t x -> H; apply interp1_left; exact H|].
+  intros a t x E H. subst l. apply interp1_right; assumption.
+Qed.
+Print Assumptions C33_qv4130_limit_piecewise_linear.
+Theorem C33_qv4130_limit_in_table_range : forall m M a l x, C32.Model.sorted (a :: l) ->
+  (forall r, In r (a :: l) -> m <= snd r /\ snd r <= M) -> m <= interp1 x (a :: l) /\ interp1 x (a :: l) <= M.
+Proof. exact interp1_bounds. Qed.
+Print Assumptions C33_qv4130_limit_in_table_range.
+
+(* clamp-in-area for the 4130 variants (only the area applies): p is unchanged and the returned q lies in the merged flexibility;
+   when the PQ interval and the two interpolated limits overlap, q lies in the PQ interval and between the two limit curves at
+   the element's voltage (consistent PQArea4130 constants, checked on the real objects by the harness) *)
+Theorem C33_area4130_clamp_in_area : forall a lo_pts hi_pts r q_prio rt p q vm p' q',
+  lf_ind a <= 0 /\ a_min_q a <= k_ind a + (p1 a - p0 a) * lf_ind a /\ k_cap a + (p1 a - p0 a) * lf_cap a <= a_max_q a ->
+  saturate (A4130 a lo_pts hi_pts r) None q_prio rt p q vm = Res p' q' ->
+  p' = p /\
+  exists lo hi, merge r (pq4120_flex a p) (qv4130_flex lo_pts hi_pts vm) = Some (lo, hi) /\ lo <= q' /\ q' <= hi /\
+    (qmax (fst (pq4120_flex a p)) (interp1 vm lo_pts) <= qmin (snd (pq4120_flex a p)) (interp1 vm hi_pts) ->
+     fst (pq4120_flex a p) <= q' /\ q' <= snd (pq4120_flex a p) /\ interp1 vm lo_pts <= q' /\ q' <= interp1 vm hi_pts).
+Proof. exact area4130_clamp_in_area. Qed.
+Print Assumptions C33_area4130_clamp_in_area.
+Example C33_area4130_nonvacuous :
+  let a := {| p0 := 1 # 20; p1 := 1 # 5; a_min_q := -(1 # 4); a_max_q := 1 # 2; q_under := 1 # 20; lf_ind := -(1); lf_cap := 8 # 3;
+              k_low := -(1 # 20); k_ind := -(1 # 10); k_cap := 1 # 10 |} in
+  let lo_pts := [(9 # 10, 1 # 2); (1, 0); (21 # 20, -(1 # 4))] in
+  let hi_pts := [(11 # 10, 1 # 2); (23 # 20, -(1 # 4))] in
+  (lf_ind a <= 0 /\ a_min_q a <= k_ind a + (p1 a - p0 a) * lf_ind a /\ k_cap a + (p1 a - p0 a) * lf_cap a <= a_max_q a) /\
+  saturate (A4130 a lo_pts hi_pts true) None true 0 1 (3 # 4) 1 = Res 1 (1 # 2) /\
+  saturate (A4130 a lo_pts hi_pts true) None true 0 1 (-(1 # 4)) (39 # 40) = Res 1 (1 # 8) /\
+  qv4130_flex lo_pts hi_pts (39 # 40) = (1 # 8, 1 # 2).
+Proof. cbv zeta. split; [split; [|split]; vm_compute; discriminate|]. repeat split; vm_compute; reflexivity. Qed.
 
 (* G33: damping >= 1 and the previous point inside.  The damped update keeps the disc / the interval (convexity) *)
 Theorem C33_damped_step_in_disc_partial : forall d s pc qc pt qt,
